@@ -78,4 +78,24 @@ PROPS = {
         "assumptions": ["Counter/dict model of dsim/worlds/histogram.py transcribes the documented meaning of each operation",
                         "a clean batch is evidence over the sampled histories and draw sequences only, not a proof"],
     },
+    "C10": {
+        "world": "dsim.worlds.midcircuit.MidCircuitWorld",
+        "tiers": {"quick": {"runs": 480, "chunk": 4, "run_cap_s": 200, "wall_cap_s": 600},
+                  "thorough": {"runs": 12000, "chunk": 8, "run_cap_s": 400, "wall_cap_s": 2700}},
+        "rule": "one evaluation = one simulated run: 3-16 programs (1-5 qubits, 1-6 MEASURE/CMEASURE gates, dictionary / function / "
+                "class control, nesting depth <= 3, random initial states) executed on two long-lived backend objects: (exact) "
+                "every outcome string of the reference outcome tree simulated with desired_meas_result and compared (state, final "
+                "distribution, recorded probability, applied gates, records), zero-probability string must be refused; (shots) "
+                "n_shots in {1,7,200,2000} with the measurement outcomes drawn from the RNG seam, scripted draws forcing leaves and "
+                "extremes, per-shot control flow + exact accounting of all_frequencies / marginals + seeded 6.5 sigma; (applied) "
+                "generate_applied_gates per outcome string. Distinct = (mode, width, CMEASURE?, control kind, tree size, initial state?) "
+                "tuples; non-trivial = run with >=3 programs or >=1 scripted draw.",
+        "probes": ["C10.nested_cmeasure_depth>=2", "C10.outcome_tree_fully_simulated", "C10.outcome_tree_fully_observed", "C10.leaf_forced_by_script",
+                   "C10.retry_exhausted", "C10.retry_attempts>1_likely"],
+        "components_real": ["Backend.simulate, CirqSimulator.simulate_circuit (conditioned route, CMEASURE shot loop, cirq.run route, "
+                            "density route, retry loop), perform_measurement, get_unitary_circuit_pieces, generate_applied_gates, "
+                            "split_frequency_dict*, cirq Simulator / DensityMatrixSimulator"],
+        "components_stub": ["ProbeControl: a recording ClassicalControl subclass supplied through the public cmeasure_control argument"],
+        "assumptions": _TRUST + ["no oracle assumes a draw -> outcome mapping: scripts only steer, outcomes are read from the API"],
+    },
 }
